@@ -2310,12 +2310,21 @@ vbi_decode_teletext(vbi_decoder *vbi, uint8_t *buffer)
 		cvtp->pgno = pgno;
 		vbi->vt.current = rvtp;
 
-		subpage = vbi_unham16p (p + 2) + vbi_unham16p (p + 4) * 256;
-		flags = vbi_unham16p (p + 6);
+		{
+			int sub_lo = vbi_unham16p (p + 2);
+			int sub_hi = vbi_unham16p (p + 4);
 
-		if (page == 0xFF || (subpage | flags) < 0) {
-			cvtp->function = PAGE_FUNCTION_DISCARD;
-			return FALSE;
+			flags = vbi_unham16p (p + 6);
+
+			/* Not (sub_lo + sub_hi * 256) < 0: an error in
+			   the low byte (-1 ... -16) is masked by a
+			   non-zero high byte. */
+			if (page == 0xFF || (sub_lo | sub_hi | flags) < 0) {
+				cvtp->function = PAGE_FUNCTION_DISCARD;
+				return FALSE;
+			}
+
+			subpage = sub_lo + sub_hi * 256;
 		}
 
 		cvtp->subno = subpage & 0x3F7F;
